@@ -140,7 +140,7 @@ def run(chk):
             r4.fail("ObjectPool.get:" + construct, msg, fn=fn, node=node)
     n_app = 0
     for (field, kind, node, st) in dom.accesses:
-        if kind == "write" and isinstance(node, ast.Call) and node.func.attr in ("append", "appendleft") and node.args and isinstance(node.args[0], ast.Name):
+        if kind == "write" and isinstance(node, ast.Call) and node.func.attr in ("append", "appendleft", "add") and node.args and isinstance(node.args[0], ast.Name):
             v = st.get(node.args[0].id)
             n_app += 1
             if isinstance(v, poolpaths.Obj) and v.origin.startswith("popped"):
